@@ -785,7 +785,11 @@ func evalMetric(db *DB, m *MetricQuery, evalFrom, evalTo int64, keepUnwrapped bo
 				}
 				ps = ps[:m.TopK]
 			}
-			pts = append(pts, ps...)
+			for _, q := range ps {
+				if cmpOK(m.TopCmp, q.Value) {
+					pts = append(pts, q)
+				}
+			}
 		}
 	}
 	return pts, nil
